@@ -249,4 +249,193 @@ theorem pdMatch_noPanic (cfg : Cfg) (hg : cfg.arrayGuard = true) (hm : cfg.maxNi
     · split <;> rfl
     · rfl
     · next s heq => rw [heq] at h1; simp [Res.isPanic] at h1
+/-! ### lengths of the mapping lists, Build / Validate / ResolveConstraintsFields never panic -/
+
+theorem basicMappings_len : ∀ (cands : List Cand) (i : Nat), (basicMappings i cands).1.length = (basicMappings i cands).2.length
+  | [], i => by simp [basicMappings]
+  | (d, some c) :: rest, i => by simp [basicMappings, basicMappings_len rest (i + 1)]
+  | (d, none) :: rest, i => by simp [basicMappings, basicMappings_len rest i]
+
+theorem srMappings_len (cands : List Cand) : ∀ (us : List Cred) (i : Nat), (srMappings cands i us).length ≤ us.length
+  | [], i => by simp [srMappings]
+  | u :: us, i => by
+    unfold srMappings
+    split
+    · simp only [List.length_cons]; have := srMappings_len cands us (i + 1); omega
+    · simp only [List.length_cons]; have := srMappings_len cands us i; omega
+
+theorem pdMatch_len {cfg : Cfg} {re : Regex} {pd : PD} {w : List Cred} {ms : List Mapping} {vcs : List Cred}
+    (h : pdMatch cfg re pd w = .ok (ms, vcs)) : ms.length ≤ vcs.length := by
+  unfold pdMatch at h
+  split at h
+  · unfold matchSubmissionRequirements at h
+    split at h
+    · simp only at h
+      split at h
+      · cases h
+      · split at h
+        · injection h with h; injection h with h1 h2; subst h1; subst h2; exact srMappings_len _ _ _
+        · cases h
+        · cases h
+    · cases h
+    · cases h
+  · unfold matchBasic at h
+    split at h
+    · split at h
+      · cases h
+      · next cands _ _ =>
+        injection h with h
+        have := basicMappings_len cands 0
+        rw [h] at this
+        simp at this
+        omega
+    · cases h
+    · cases h
+
+theorem rewriteSingle_len (ms : List Mapping) : (rewriteSingle ms).length = ms.length := by
+  unfold rewriteSingle; split <;> simp
+
+theorem firstWallet_len {cfg : Cfg} {re : Regex} {pd : PD} : ∀ {ws : List (List Cred)} {ms : List Mapping} {vcs : List Cred},
+    firstWallet cfg re pd ws = .ok (some (ms, vcs)) → ms.length ≤ vcs.length
+  | [], _, _, h => by simp [firstWallet] at h
+  | w :: ws, ms, vcs, h => by
+    unfold firstWallet at h
+    split at h
+    · next r heq => injection h with h; injection h with h; subst h; exact pdMatch_len heq
+    · exact firstWallet_len h
+    · cases h
+
+theorem firstWallet_noPanic (cfg : Cfg) (hg : cfg.arrayGuard = true) (hm : cfg.maxNilCheck = true) (re : Regex) (pd : PD) :
+    ∀ ws, (firstWallet cfg re pd ws).isPanic = false
+  | [] => by unfold firstWallet; rfl
+  | w :: ws => by
+    unfold firstWallet
+    have h1 := pdMatch_noPanic cfg hg hm re pd w
+    split
+    · rfl
+    · exact firstWallet_noPanic cfg hg hm re pd ws
+    · next s heq => rw [heq] at h1; simp [Res.isPanic] at h1
+
+theorem build_len {cfg : Cfg} {re : Regex} {pd : PD} {ws : List (List Cred)} {ms : List Mapping} {vcs : List Cred}
+    (h : build cfg re pd ws = .ok (ms, vcs)) : ms.length ≤ vcs.length := by
+  unfold build at h
+  split at h
+  · next ms' vcs' heq =>
+    injection h with h; injection h with h1 h2; subst h1; subst h2
+    rw [rewriteSingle_len]; exact firstWallet_len heq
+  · split at h
+    · cases h
+    · split at h
+      · cases h
+      · injection h with h; injection h with h1 h2; subst h1; subst h2; simp
+  · cases h
+  · cases h
+
+/-- `Build` can only panic on `b.holders[0]`, i.e. when no wallet was added -/
+theorem build_noPanic (cfg : Cfg) (hg : cfg.arrayGuard = true) (hm : cfg.maxNilCheck = true) (re : Regex) (pd : PD)
+    (ws : List (List Cred)) (hne : ws ≠ []) : (build cfg re pd ws).isPanic = false := by
+  unfold build
+  have h1 := firstWallet_noPanic cfg hg hm re pd ws
+  split
+  · rfl
+  · split
+    · rfl
+    · split
+      · next h => cases ws with
+        | nil => exact absurd rfl hne
+        | cons _ _ => simp at h
+      · rfl
+  · rfl
+  · next s heq => rw [heq] at h1; simp [Res.isPanic] at h1
+
+theorem resolveStep_noPanic (decode : Decoder) (lv : Level) (v : J) : (resolveStep decode lv v).isPanic = false := by
+  unfold resolveStep
+  split
+  · rfl
+  · split
+    · rfl
+    · simp only
+      split <;> rfl
+
+theorem resolveLevels_noPanic (decode : Decoder) : ∀ (rest : List Level) (lv : Level) (v : J), (resolveLevels decode rest lv v).isPanic = false
+  | [], lv, v => by
+    unfold resolveLevels
+    have h1 := resolveStep_noPanic decode lv v
+    split
+    · split <;> rfl
+    · rfl
+    · next s heq => rw [heq] at h1; simp [Res.isPanic] at h1
+  | nx :: rest, lv, v => by
+    unfold resolveLevels
+    have h1 := resolveStep_noPanic decode lv v
+    split
+    · exact resolveLevels_noPanic decode rest nx _
+    · rfl
+    · next s heq => rw [heq] at h1; simp [Res.isPanic] at h1
+
+theorem resolve_noPanic (cfg : Cfg) (decode : Decoder) (env : J) : ∀ (ms : List Mapping) (acc : List (String × Cred)),
+    (resolve cfg decode env acc ms).isPanic = false
+  | [], acc => by unfold resolve; rfl
+  | m :: ms, acc => by
+    unfold resolve
+    have h1 := resolveLevels_noPanic decode m.nested m.top env
+    split
+    · rfl
+    · unfold resolveCredential
+      split
+      · exact resolve_noPanic cfg decode env ms _
+      · rfl
+      · next s heq => rw [heq] at h1; simp [Res.isPanic] at h1
+
+theorem expectedMap_noPanic : ∀ (ms : List Mapping) (vcs : List Cred) (acc : List (String × Cred)), ms.length ≤ vcs.length →
+    (expectedMap acc ms vcs).isPanic = false
+  | [], _, acc, _ => by unfold expectedMap; rfl
+  | _ :: _, [], _, h => by simp at h
+  | m :: ms, c :: cs, acc, h => by
+    unfold expectedMap
+    exact expectedMap_noPanic ms cs _ (by simpa using h)
+
+theorem validate_noPanic (cfg : Cfg) (hg : cfg.arrayGuard = true) (hm : cfg.maxNilCheck = true) (re : Regex) (decode : Decoder)
+    (pd : PD) (env : Envelope) (sub : List Mapping) : (validate cfg re decode pd env sub).isPanic = false := by
+  unfold validate
+  have h1 := resolve_noPanic cfg decode env.asInterface sub []
+  split
+  · rfl
+  · next s heq => rw [heq] at h1; simp [Res.isPanic] at h1
+  · split
+    · split <;> rfl
+    · next hne =>
+      split
+      · rfl
+      · have hne' : env.presentations ≠ [] := by intro h; simp [h] at hne
+        have h2 := build_noPanic cfg hg hm re pd env.presentations hne'
+        split
+        · rfl
+        · next s heq => rw [heq] at h2; simp [Res.isPanic] at h2
+        · next ms vcs heq =>
+          have h3 := expectedMap_noPanic ms vcs [] (build_len heq)
+          split
+          · rfl
+          · next s heq2 => rw [heq2] at h3; simp [Res.isPanic] at h3
+          · split
+            · rfl
+            · split <;> rfl
+
+theorem resolveFields_noPanic (cfg : Cfg) (hg : cfg.arrayGuard = true) (re : Regex) (pd : PD) :
+    ∀ (cm : List (String × Cred)) (acc : Values), (resolveFields cfg re pd acc cm).isPanic = false
+  | [], acc => by unfold resolveFields; rfl
+  | (id, c) :: rest, acc => by
+    unfold resolveFields
+    split
+    · exact resolveFields_noPanic cfg hg re pd rest acc
+    · split
+      · exact resolveFields_noPanic cfg hg re pd rest acc
+      · next fields _ =>
+        have h1 := matchConstraintLoop_noPanic cfg hg re c.tree fields []
+        unfold matchConstraint
+        split
+        · exact resolveFields_noPanic cfg hg re pd rest _
+        · exact resolveFields_noPanic cfg hg re pd rest acc
+        · rfl
+        · next s heq => rw [heq] at h1; simp [Res.isPanic] at h1
 end Nuts.C12
